@@ -326,6 +326,16 @@ pub fn model(c: &Case) -> Expect {
 /// `Label (origin) [unit]: value`: the origin is the expected one and the printed value is the value used, at
 /// the precision it is printed with (the number of decimals is not part of the statement)
 fn echo_agrees(line: &str, origin: &str, value: f32) -> bool {
+    echo_agrees_within(line, origin, value, 0.0)
+}
+
+/// number of decimals of a printed number
+fn decimals_of(text: &str) -> i32 {
+    text.trim().split_once('.').map(|(_, d)| d.chars().take_while(|c| c.is_ascii_digit()).count() as i32).unwrap_or(0)
+}
+
+/// as `echo_agrees`, with `slack` more (the rounding of a value that went through a metadata line)
+fn echo_agrees_within(line: &str, origin: &str, value: f32, slack: f64) -> bool {
     let (head, val) = match line.rsplit_once(':') {
         Some(x) => x,
         None => return false,
@@ -337,7 +347,7 @@ fn echo_agrees(line: &str, origin: &str, value: f32) -> bool {
     let t = val.trim();
     let decimals = t.split_once('.').map(|(_, d)| d.chars().take_while(|c| c.is_ascii_digit()).count()).unwrap_or(0);
     match t.parse::<f64>() {
-        Ok(g) => (g - value as f64).abs() <= 0.5 * 10f64.powi(-(decimals as i32)) * 1.0001 + 1e-6 * (value.abs() as f64),
+        Ok(g) => (g - value as f64).abs() <= 0.5 * 10f64.powi(-(decimals as i32)) * 1.0001 + slack * 1.0001 + 1e-6 * (value.abs() as f64),
         Err(_) => false,
     }
 }
@@ -578,9 +588,11 @@ fn check_run(c: &Case, text: &str, run: &CliRun, ctx: &mut Ctx) -> CheckResult {
             ensure!(run2.status == Some(0), "rerun_status", "cteepbd refuses the components it emitted itself: {}", run2.summary());
             let line2 = |prefix: &str| run2.stdout.lines().find(|l| l.starts_with(prefix)).map(|l| l.to_string()).unwrap_or_default();
             let want_a = format!("Área de referencia (metadatos) [m2]: {:.2}", e.area.1);
-            ensure!(echo_agrees(&line2("Área de referencia ("), "metadatos", format!("{:.2}", e.area.1).parse().unwrap()), "recorded_area", "run on the emitted components prints `{}`; the first run used `{}`", line2("Área de referencia ("), want_a);
+            // (the metadata hold the value at their own printed precision, whatever that is)
+            let meta_slack = |key: &str| get(key).map(|v| 0.5 * 10f64.powi(-decimals_of(&v))).unwrap_or(0.0);
+            ensure!(echo_agrees_within(&line2("Área de referencia ("), "metadatos", e.area.1, meta_slack("CTE_AREAREF")), "recorded_area", "run on the emitted components prints `{}`; the first run used `{}`", line2("Área de referencia ("), want_a);
             let want_k = format!("Factor de exportación (metadatos) [-]: {:.1}", e.k.1);
-            ensure!(echo_agrees(&line2("Factor de exportación ("), "metadatos", format!("{:.1}", e.k.1).parse().unwrap()), "recorded_kexp", "run on the emitted components prints `{}`; the first run used `{}`", line2("Factor de exportación ("), want_k);
+            ensure!(echo_agrees_within(&line2("Factor de exportación ("), "metadatos", e.k.1, meta_slack("CTE_KEXP")), "recorded_kexp", "run on the emitted components prints `{}`; the first run used `{}`", line2("Factor de exportación ("), want_k);
             if c.ffile.is_none() {
                 let want_f = format!("Factores de paso (metadatos): {}", e.fsrc.1);
                 ensure!(line2("Factores de paso (") == want_f, "recorded_location", "run on the emitted components prints `{}`; the first run used location `{}`", line2("Factores de paso ("), e.fsrc.1);
